@@ -13,7 +13,11 @@ Stage C: real `Community` nodes (real keys, real signatures, real serializer, re
                the final get_peers(), my_estimated_wan and walkable addresses of every node;
            (d) random operation sequences (walk_to / send_introduction_request / walk to everything
                walkable / NAT mapping loss / pump) on random topologies with random `random.choice` outcomes;
-           (e) the scenario on DiscoveryCommunity nodes (oracle only, not compared with the model).
+           (e) the scenario on DiscoveryCommunity nodes (oracle only, not compared with the model);
+           (f) the enlarged space of props/C13x.v: the introducer behind a NAT of its own or sharing a site with
+               requester / introduced peer, reached through a rendezvous tracker (compared and judged; where the
+               introducer shares a NAT box with exactly one party the property is refuted in the model - theorem
+               blind_introducer_refuted - and the implementation's failure is reported under a stable key).
 Oracle : an independent Python reading of the property on what the implementation did (`judge`): the
          introducer's response and its puncture-request leave in the same activation and name the
          requester's LAN/WAN pair; the introduced peer punctures towards the requester; a later request
@@ -37,8 +41,8 @@ IMPORTS = ("From Coq Require Import ZArith List Bool.\n"
            "Import ListNotations.\nOpen Scope Z_scope.\n")
 CORPUS = os.path.join(VERIF, "corpus", "C13")
 TYPES = ["Open", "FullCone", "AddrRestricted", "PortRestricted"]
-ID_T, ID_B, ID_A = 0, 1, 2
-ADDR_T, ADDR_B = ("1.0.0.1", 8000), ("1.0.0.2", 8001)
+ID_T, ID_B, ID_A, ID_R = 0, 1, 2, 8
+ADDR_T, ADDR_B, ADDR_R = ("1.0.0.1", 8000), ("1.0.0.2", 8001), ("1.0.0.3", 8008)
 PUMP_FUEL = 400
 
 
@@ -58,6 +62,63 @@ def cfg_for(tA, c, styleA, warm, k, pos):
             cs.append(cand((c["type"] + j + 1) % 4, j % 2 == 1, (j % 2 == 0) and c["resp"], j % 2 == 1, False, False))
     selb = pos + (1 if any(x["resp"] for x in cs) else 0)
     return {"tA": tA, "cands": cs, "styleA": bool(styleA), "warm": bool(warm), "sels": [-1, selb]}
+
+
+def cfg_forx(bp, tA, c, styleA, k, pos):
+    """mirror of M13_scenario.cfg_forx: the introducer placed by bp = ("own", t) | ("withA",) | ("withC", j)"""
+    g = cfg_for(tA, c, styleA, False, k, pos)
+    g["bplace"] = list(bp)
+    return g
+
+
+def bplaces(pos):
+    return [("own", 0), ("own", 1), ("own", 2), ("own", 3), ("withA",), ("withC", pos)]
+
+
+def all_cfgs_x(quick, ks=(1, 3)):
+    """mirror of the enlarged space of props/C13x.v (introducer behind a NAT / sharing a site) for the given k;
+    quick tier: a rotating third of the placements per configuration, equal styles only"""
+    out = []
+    for tA in range(4):
+        for tC in range(4):
+            for same in (False, True):
+                for resp in (False, True):
+                    for newc in (False, True):
+                        for stylea in (False, True):
+                            if quick and newc != stylea:
+                                continue
+                            for k in ks:
+                                for pos in range(k):
+                                    if quick and k == 3 and pos != (tA + tC + same + resp) % 3:
+                                        continue
+                                    for bi, bp in enumerate(bplaces(pos)):
+                                        if quick and (bi + tA + 2 * tC + same + resp + newc + k) % 3:
+                                            continue
+                                        out.append(cfg_forx(bp, tA, cand(tC, same, resp, newc), stylea, k, pos))
+    return out
+
+
+def b_site_of(cfg):
+    """(site id, is that site open, its machine's public ip) of the introducer - mirror of b_site / b_site_kind"""
+    bp = cfg.get("bplace")
+    if not bp:
+        return 0, True, "1.0.0.2"
+    if bp[0] == "own":
+        return 2, bp[1] == OPEN, "2.0.0.1"
+    if bp[0] == "withA":
+        return 1, cfg["tA"] == OPEN, "2.0.0.2"
+    c = cfg["cands"][bp[1]]
+    if c["same"]:
+        return 1, cfg["tA"] == OPEN, "2.0.0.2"
+    return 10 + bp[1], c["type"] == OPEN, "2.0.0.%d" % (3 + bp[1])
+
+
+def b_blind(cfg, x):
+    """mirror of M13_scenario.b_blind: the introducer shares a NAT box with exactly one of requester / introduced peer"""
+    hosts, _ = layout(cfg)
+    sb, is_open, _ = b_site_of(cfg)
+    sa, sx = 1, hosts[x][1]
+    return (not is_open) and ((sb == sx and sb != sa) or (sb == sa and sx != sa))
 
 
 VARIATIONS = [(False, False, False, (1, 2, 3, 4, 5))] + [
@@ -100,8 +161,12 @@ def lan_of(is_open, pub_ip, hid):
 
 def layout(cfg):
     """hosts: id -> (lan, site); sites: id -> (type, pub ip, first external port)   (mirror of mk_net)"""
-    hosts = {ID_T: (ADDR_T, 0), ID_B: (ADDR_B, 0), ID_A: (lan_of(cfg["tA"] == OPEN, "2.0.0.2", ID_A), 1)}
+    sb, b_open, b_ip = b_site_of(cfg)
+    b_lan = lan_of(b_open, b_ip, ID_B) if cfg.get("bplace") else ADDR_B
+    hosts = {ID_T: (ADDR_T, 0), ID_B: (b_lan, sb), ID_A: (lan_of(cfg["tA"] == OPEN, "2.0.0.2", ID_A), 1)}
     sites = {0: (OPEN, "5.0.0.0", 20000), 1: (cfg["tA"], "5.0.0.1", 20100)}
+    if cfg.get("bplace") and cfg["bplace"][0] == "own":
+        sites[2] = (cfg["bplace"][1], "5.0.0.2", 20200)
     for j, c in enumerate(cfg["cands"]):
         hid = 3 + j
         if c["same"]:
@@ -113,11 +178,23 @@ def layout(cfg):
             else:
                 hosts[hid] = (lan_of(c["type"] == OPEN, "2.0.0.%d" % hid, hid), sid)
             sites[sid] = (c["type"], "5.0.0.%d" % sid, 20000 + 100 * sid)
+    if cfg.get("bplace"):
+        hosts[ID_R] = (ADDR_R, 0)
     return hosts, sites
 
 
 def scenario_ops(cfg):
     """mirror of M13_scenario.scenario_ops (the Coq side uses its own; any difference is a mismatch)"""
+    if cfg.get("bplace"):
+        ops = [("walk", ID_B, ADDR_R, cfg["styleA"]), ("pump",)]
+        for j, c in enumerate(cfg["cands"]):
+            hid = 3 + j
+            if c["resp"]:
+                ops += [("walk", hid, ADDR_T, c["new"]), ("pump",), ("walk", ID_B, ADDR_T, None), ("pump",),
+                        ("walkall", ID_B), ("pump",)]
+            else:
+                ops += [("walk", hid, ADDR_R, c["new"]), ("pump",), ("walkall", hid), ("pump",)]
+        return ops + [("walk", ID_A, ADDR_R, False), ("pump",), ("walkall", ID_A), ("pump",), ("walkall", ID_A), ("pump",)]
     ops = []
     for j, c in enumerate(cfg["cands"]):
         hid = 3 + j
@@ -137,7 +214,7 @@ def scenario_ops(cfg):
 class Keys:
     """one key per host id, generated once per run (key generation dominates otherwise)"""
 
-    def __init__(self, n=9):
+    def __init__(self, n=10):
         from ipv8.keyvault.crypto import default_eccrypto
         self.keys = [default_eccrypto.generate_key("curve25519") for _ in range(n)]
         self.bins = [k.pub().key_to_bin() for k in self.keys]
@@ -240,7 +317,8 @@ class World:
             peers[hid] = sorted(ids)
             wans[hid] = tuple(self.net.call(hid, lambda ov=ov: ov.my_estimated_wan))
             walk[hid] = [tuple(a) for a in sorted_addrs(self.net.call(hid, ov.get_walkable_addresses))]
-        return {"events": events, "peers": peers, "wans": wans, "walk": walk, "quiet": not self.net.queue}
+        return {"events": events, "peers": peers, "wans": wans, "walk": walk, "quiet": not self.net.queue,
+                "external": {hid: self.net.external(hid) for hid in self.ovs}}
 
 
 def sorted_addrs(l):
@@ -259,7 +337,7 @@ class Decoder:
         net.host(99, ("9.9.9.9", 9), 0)
         prev, net_ref[0] = net_ref[0], net
         ep = net.endpoint(99)
-        self.ov = net.call(99, lambda: community_class()(CommunitySettings(my_peer=Peer(keys.keys[8]), endpoint=ep,
+        self.ov = net.call(99, lambda: community_class()(CommunitySettings(my_peer=Peer(keys.keys[9]), endpoint=ep,
                                                                            network=Network())))
         self.ov.cancel_pending_task("discover_lan_addresses")
         net_ref[0] = prev
@@ -347,6 +425,7 @@ def judge(cfg, obs):
     if preq["out"][0] != "deliver":
         return [("puncture-request/not-delivered", "puncture-request to %s: %s" % (preq["dst"], preq["out"]))]
     x = preq["out"][1]
+    obs["introduced"] = x
     if x == ID_A:
         return [("puncture-request/to-requester", "the requester was introduced to itself")]
     failed = []
@@ -359,7 +438,7 @@ def judge(cfg, obs):
         failed.append(("puncture-request/identifier", "identifier %d, request had %d" % (pid, ident)))
     if lanw != a_lan:
         failed.append(("puncture-request/lan-walker", "names LAN address %s, the requester's is %s" % (lanw, a_lan)))
-    toward = a_lan if same else dest
+    toward = a_lan if same else (obs["external"][ID_A] or dest)    # ground truth of the simulator
     after = ev[ri + 1:]
     later = ev[ev.index(preq) + 1:]
     if not any(e["src"] == x and e["msg"][0] == "Punct" and e["dst"] == toward and e["msg"][-1] == ident for e in later):
@@ -397,6 +476,40 @@ def judge(cfg, obs):
     return failed
 
 
+BLIND_KEYS = {
+    "introduced": "introducer-behind-introduced-peers-nat/hands-out-lan-address",
+    "requester": "introducer-behind-requesters-nat/names-lan-address-as-wan-walker",
+}
+BLIND_EXPECTED = ("puncture/not-towards-requester/", "reach/request/", "reach/response/", "verified/not-mutual/")
+
+
+def judge_x(cfg, obs):
+    """judge() for the enlarged space: where the introducer shares a NAT box with exactly one party (b_blind; the
+    model refutes the property there) the expected failures are folded into one stable key per kind; every other
+    failed clause, and every failure elsewhere, is reported as it is (prefixed nat-introducer/)."""
+    failed = judge(cfg, obs)
+    x = obs.get("introduced")
+    if x is None or not b_blind(cfg, x):
+        return [("nat-introducer/" + c, d) for c, d in failed], False
+    hosts, _ = layout(cfg)
+    kind = "introduced" if b_site_of(cfg)[0] == hosts[x][1] else "requester"
+    out, folded = [], []
+    for c, d in failed:
+        if c.startswith(BLIND_EXPECTED):
+            folded.append("%s: %s" % (c, d))
+        else:
+            out.append(("nat-introducer/" + c, d))
+    # The introducer's own placement is not part of C13's quantifier (NAT types and placement of requester and introduced
+    # peer): where it shares a NAT box with exactly one party the model REFUTES reachability (blind_introducer_refuted) and
+    # the implementation agrees.  That is recorded as an observation outside the property (DESIGN 9.5/C13), not reported as a
+    # violation; the folded clauses are kept so that evidence shows them.
+    judge_x.blind_observed[BLIND_KEYS[kind]] = judge_x.blind_observed.get(BLIND_KEYS[kind], 0) + bool(folded)
+    return out, (True if folded else "holds")
+
+
+judge_x.blind_observed = {}
+
+
 def judge_steps(obs):
     """On any history (scenario or random): every response that introduces somebody is preceded, in the same
     activation of the same node, by a puncture-request naming the response's destination and identifier."""
@@ -411,8 +524,12 @@ def judge_steps(obs):
 
 
 def describe(cfg):
-    return "requester %s%s; candidates %s; request style %s; choice %s" % (
-        TYPES[cfg["tA"]], " (talked to the tracker before)" if cfg.get("warm") else "",
+    bp = cfg.get("bplace")
+    where = "" if not bp else ("introducer %s; " % (
+        "behind its own %s site" % TYPES[bp[1]] if bp[0] == "own" else
+        "at the requester's site" if bp[0] == "withA" else "at candidate %d's site" % bp[1]))
+    return "%srequester %s%s; candidates %s; request style %s; choice %s" % (
+        where, TYPES[cfg["tA"]], " (talked to the tracker before)" if cfg.get("warm") else "",
         ["%s%s%s%s" % (TYPES[c["type"]] if not c["same"] else "at-requester-site", "/same-LAN-address-as-requester" if c.get("alias") else "",
                        ("/by-response" if c["resp"] else "/by-request") + ("/mapping-lost-and-renewed" if c.get("rebound") else ""),
                        "/new" if c["new"] else "/old") for c in cfg["cands"]],
@@ -472,12 +589,22 @@ class Lits:
             self.b(o["quiet"]))
 
     def cfg(self, g):
-        return "(mkCfg %s [%s] %s %s [%s])" % (
+        return "(mkCfg %s [%s] %s %s [%s] %s)" % (
             TYPES[g["tA"]],
             "; ".join("mkCand %s %s %s %s %s %s" % (TYPES[c["type"]], self.b(c["same"]), self.b(c["resp"]), self.b(c["new"]),
                                                    self.b(c.get("alias", False)), self.b(c.get("rebound", False)))
                       for c in g["cands"]),
-            self.b(g["styleA"]), self.b(g.get("warm", False)), "; ".join(self.z(s) for s in g["sels"]))
+            self.b(g["styleA"]), self.b(g.get("warm", False)), "; ".join(self.z(s) for s in g["sels"]),
+            self.bplace(g.get("bplace")))
+
+    def bplace(self, bp):
+        if not bp:
+            return "BPublic"
+        if bp[0] == "own":
+            return "(BOwn %s)" % TYPES[bp[1]]
+        if bp[0] == "withA":
+            return "BWithA"
+        return "(BWithC %d%%nat)" % bp[1]
 
     def op(self, o):
         if o[0] == "pump":
@@ -657,6 +784,7 @@ def run(ctx):
         import hashlib
         ctx.extra["translator_output_sha256"] = {"gen/G13_lan.v": hashlib.sha256(text.encode()).hexdigest()}
         ctx.proofs()
+        ctx.proofs(part="C13x")
     ctx.coverage["trusted_base"] = [
         "Coq 8.16.1 kernel; no axioms",
         "hand models M13_nat (NAT network, handlers of community.py over the Peer/Network bookkeeping) and "
@@ -668,8 +796,10 @@ def run(ctx):
         "signatures are genuine in every run (authenticity itself is C01's subject); IPv4 only",
     ]
     ctx.assumptions = [
-        "the introducer is a public host; requester and candidates sit behind no NAT or a cone NAT with "
-        "endpoint-independent mapping (symmetric NATs, mapping timeouts, packet loss and reordering are outside the property)",
+        "requester, candidates and (C13x) the introducer sit behind no NAT or a cone NAT with endpoint-independent mapping "
+        "(symmetric NATs, mapping timeouts, packet loss and reordering are outside the property); a NATted introducer is "
+        "reached through a public rendezvous tracker; an introducer sharing a NAT box with exactly one of the two parties "
+        "is outside what the protocol can do (refuted in the model, reported as known finding)",
         "the introduced peer's puncture leaves before the requester's next request (FIFO network)",
         "fewer than max_peers peers; no blacklisted addresses",
     ]
@@ -715,7 +845,7 @@ async def _stages(ctx, keys, net_ref, dec, scratch):
         disc = w.get("community") == "DiscoveryCommunity"
         obs, _ = await run_impl(w["cfg"], keys, net_ref, dec, ops=w.get("ops"), cls=discovery_class() if disc else None)
         ctx.count("corpus/" + name)
-        for clause, detail in judge(w["cfg"], obs):
+        for clause, detail in (judge_x(w["cfg"], obs)[0] if w["cfg"].get("bplace") else judge(w["cfg"], obs)):
             clause = ("discovery-community/" if disc else "") + clause
             ctx.violation(clause, "corpus witness %s fails again: %s (%s)" % (name, detail, describe(w["cfg"])),
                           witness(w["cfg"], clause, detail, w.get("ops"), "DiscoveryCommunity" if disc else None))
@@ -809,6 +939,37 @@ async def _stages(ctx, keys, net_ref, dec, scratch):
 
     timing["ops_impl"] = round(time.time() - t0, 1)
     t0 = time.time()
+    # ------------------------------------------------------------------ (f) the enlarged space: introducer behind a NAT / sharing a site
+    cfgs_x = all_cfgs_x(ctx.quick) if ctx.quick else all_cfgs_x(False) + all_cfgs_x(False, (2, 4, 5))[::16]
+    x_verdicts = {"hold": 0, "blind": 0}
+    for gi, g in enumerate(cfgs_x):
+        obs, _ = await run_impl(g, keys, net_ref, dec)
+        failed, blind = judge_x(g, obs)
+        if obs["escaped"]:
+            ctx.violation("exception-escaped", "an exception escaped a handler: %s (%s)" % (obs["escaped"][:2], describe(g)),
+                          witness(g, "exception-escaped", str(obs["escaped"][:2])))
+        sok, sdetail = judge_steps(obs)
+        if not sok:
+            ctx.violation("introducer-punctures/any-node", sdetail + " (%s)" % describe(g), witness(g, "introducer-punctures", sdetail))
+        x_verdicts["blind" if blind else "hold" if not failed else "fail"] = x_verdicts.get("blind" if blind else "hold" if not failed else "fail", 0) + 1
+        for clause, detail in failed:
+            x_verdicts[clause] = x_verdicts.get(clause, 0) + 1
+            ctx.violation(clause, "%s :: %s" % (detail, describe(g)), witness(g, clause, detail))
+        if blind == "holds":
+            ctx.broke("correspondence: the model refutes reachability for a blind introducer placement, the implementation achieves it",
+                      describe(g))
+        ctx.count("scnx/" + cfg_key(g), nontrivial=True)
+        if gi % 211 == 0:
+            ctx.sample({"cfg": describe(g), "events": len(obs["events"]), "peers": obs["peers"], "blind_introducer": blind,
+                        "failed": [c for c, _ in failed]}, limit=9)
+        scn_cases.append((lits.cfg(g), lits.obs(obs)))
+        scn_meta.append(g)
+        scn_obs.append(obs if len(scn_obs) < 4000 else None)
+        ctx.coverage["traces_validated_against_impl"] += 1
+    ctx.extra["nat_introducer_verdicts"] = x_verdicts
+    ctx.extra["blind_introducer_observations_outside_the_quantifier"] = dict(judge_x.blind_observed)
+    timing["nat_introducer_impl"] = round(time.time() - t0, 1)
+    t0 = time.time()
     # ------------------------------------------------------------------ (e) the scenario on DiscoveryCommunity nodes (oracle only)
     # (the community every IPv8 node runs; it overrides the old-style request handler and adds similarity traffic,
     #  which the model does not describe - so these runs are judged, not compared)
@@ -877,7 +1038,7 @@ async def _stages(ctx, keys, net_ref, dec, scratch):
         "compared with the model; a case counts as non-trivial when it is distinct (configuration + operations / packet "
         "sequence / address) and, for operation sequences, routed more than two datagrams")
     ctx.extra["counts"] = {"nat_sequences": len(ncases), "lan_addresses": len(lan_cases), "scenario_cfgs": len(scn_cases),
-                           "discovery_community_cfgs": sum(disc_verdicts.values()),
+                           "discovery_community_cfgs": sum(disc_verdicts.values()), "nat_introducer_cfgs": len(cfgs_x),
                            "enumerated_cfgs": len(cfgs), "operation_sequences": len(op_cases)}
 
 
@@ -908,7 +1069,8 @@ def replay(path):
                     continue
                 obs, ops = await run_impl(case["cfg"], keys, net_ref, dec, ops=case.get("ops"),
                                           cls=discovery_class() if case.get("community") == "DiscoveryCommunity" else None)
-                failed = judge(case["cfg"], obs) if case.get("ops") is None else []
+                failed = [] if case.get("ops") is not None else (
+                    judge_x(case["cfg"], obs)[0] if case["cfg"].get("bplace") else judge(case["cfg"], obs))
                 sok, sdetail = judge_steps(obs)
                 print("configuration:", describe(case["cfg"]))
                 for e in obs["events"]:
